@@ -212,9 +212,9 @@ enum Aid { A_RHS = 1, A_SEEN = 2, A_MULTIPOLE = 3, A_LOCAL = 4,
            G_L2P_CELL, G_L2P_LEAF, G_P2P_SRC, G_P2P_TGT, G_P2P_OFFSET, G_P2P_ADJ, G_P2P_N, G_P2PI_LEAF, G_DATA_ROW, G_LEVEL };
 
 // periodic top tree: the operators are called on "virtual" cells above the root; they are identified by address, level by level
-struct TopState { long k; const void* vM[24]; const void* vL[24]; long nM2M; long nM2L; long nL2L; };
+struct TopState { long k; const void* vM[24]; const void* vL[24]; long nM2M; long nM2L; long nL2L; Real boxw[DIM]; };
 static TopState gTop;
-enum AidTop { V_M2M_LEVEL = 60, V_M2M_CHILDREN, V_M2L_SRC, V_M2L_WINDOW, V_M2L_LEVEL, V_L2L_PARENT, V_L2L_CHILDREN, V_COUNTS, V_REPET, V_SHIFT };
+enum AidTop { V_M2M_LEVEL = 60, V_M2M_CHILDREN, V_M2L_SRC, V_M2L_WINDOW, V_M2L_LEVEL, V_L2L_PARENT, V_L2L_CHILDREN, V_COUNTS, V_REPET, V_SHIFT, V_WIDTH };
 
 static inline long wrapDelta(long delta, long lim){   // periodic: representative of delta modulo lim in (-lim/2, lim/2]
     long r = delta % lim; if(r < 0) r += lim; return r;
@@ -226,6 +226,15 @@ template <class PR> static inline void addRhs(PR& rhs, long i, U v){
 }
 
 // ---- virtual levels of the periodic top tree (shared by the single-tree and the target/source harness kernels)
+// the configuration the top-tree kernel was built from: its cell at virtual level `level` is 2^(k+3-level) real boxes wide (level k+3 = the real box),
+// which is what a numerical kernel derives its translation lengths / scale factors from. Widths are scaled by powers of two, so the comparison is exact.
+struct KernelGeom { Real bw[DIM]; long height; };
+static void virtualGeom(const KernelGeom& g, const long level){
+    bool ok = level < g.height;
+    const Real scale = Real(1L << (gTop.k + 3));
+    for(int d = 0; d < DIM; ++d) ok = ok && g.bw[d] == gTop.boxw[d] * scale;
+    irsym_assert(ok, V_WIDTH);
+}
 template <class CC, class C>
 static void virtualM2M(const Registry& reg, const long level, const CC& low, C& up, const long pos[], const long n){
     const long top = gTop.k + 3;
@@ -278,7 +287,8 @@ template <class RealType_T, class SpaceIndexType_T>
 class VKernel {
 public:
     using SpacialConfiguration = TbfSpacialConfiguration<RealType_T, SpaceIndexType_T::Dim>;
-    explicit VKernel(const SpacialConfiguration&){}
+    KernelGeom kg;
+    explicit VKernel(const SpacialConfiguration& c){ for(int d = 0; d < DIM; ++d) kg.bw[d] = c.getBoxWidths()[d]; kg.height = c.getTreeHeight(); }
     VKernel(const VKernel&) = default;
 
     // ---- checks shared by the leaf operators
@@ -318,7 +328,7 @@ public:
 
     template <class Sym, class CC, class C>
     void M2M(const Sym& hdr, const long level, const CC& low, C& up, const long pos[], const long n) const {
-        if(gK.geom && gK.periodic && gReg.byM(&up) == nullptr) virtualM2M(gReg, level, low, up, pos, n);
+        if(gK.geom && gK.periodic && gReg.byM(&up) == nullptr){ virtualGeom(kg, level); virtualM2M(gReg, level, low, up, pos, n); }
         else if(gK.geom){
             const CellRec* p = gReg.byM(&up);
             irsym_assert(n >= 1 && n <= (1L << DIM), G_M2M_N);
@@ -340,7 +350,7 @@ public:
 
     template <class Sym, class CC, class C>
     void M2L(const Sym& hdr, const long level, const CC& src, const long pos[], const long n, C& tgt) const {
-        if(gK.geom && gK.periodic && gReg.byL(&tgt) == nullptr) virtualM2L(level, src, pos, n, tgt);
+        if(gK.geom && gK.periodic && gReg.byL(&tgt) == nullptr){ virtualGeom(kg, level); virtualM2L(level, src, pos, n, tgt); }
         else if(gK.geom){
             const CellRec* t = gReg.byL(&tgt);
             irsym_assert(n >= 1, G_M2L_N);
@@ -377,7 +387,7 @@ public:
 
     template <class Sym, class C, class CC>
     void L2L(const Sym& hdr, const long level, const C& up, CC& low, const long pos[], const long n) const {
-        if(gK.geom && gK.periodic && gReg.byL(&up) == nullptr) virtualL2L(gReg, level, up, low, pos, n);
+        if(gK.geom && gK.periodic && gReg.byL(&up) == nullptr){ virtualGeom(kg, level); virtualL2L(gReg, level, up, low, pos, n); }
         else if(gK.geom){
             const CellRec* p = gReg.byL(&up);
             irsym_assert(n >= 1 && n <= (1L << DIM), G_L2L_N);
